@@ -4,7 +4,7 @@ $in_newline is handed to `/bin/sh -c` exactly as subprocess-posix.cc does; an ar
 what the shell made of it.  Part 2 (response files) is observed by the nsim trace monitor:
 rspfile bytes at START, removed after success, kept after failure."""
 
-MANIFEST = {'engine': 'nprobe', 'category': 'exploration', 'technique': 'runtime monitoring: real Edge::EvaluateCommand text executed by /bin/sh -c with an argv-dumping command; exhaustive 1-2 byte names', 'text': 'All 64,770 names of one and two bytes (every byte but NUL/newline), 3-byte names over a 26-symbol shell-special alphabet and random long names are placed in $in/$out lists of an edge built directly in a State; the evaluated command is run by /bin/sh exactly as ninja does and the argv the shell produced is compared word by word. Safe names must appear verbatim. Response files: real-binary scenarios in which a longer file already sits at the rspfile path (stale, kept after a failed command, kept by -d keeprsp): the command must read exactly the evaluated content (its output is a hash of it), the file is removed after success and kept verbatim after failure; the same is monitored on the virtual disk in the nsim traces of C04/C05.', 'note': "Trusted: /bin/sh is the shell ninja spawns; argvdump. $in_newline is tested with one name (newline is the shell's command separator).", 'ref': 'DESIGN.md §5 C16'}
+MANIFEST = {'engine': 'nprobe+e2e', 'category': 'exploration', 'technique': 'runtime monitoring: real Edge::EvaluateCommand text executed by /bin/sh -c with an argv-dumping command; exhaustive 1-2 byte names', 'text': 'All 64,770 names of one and two bytes (every byte but NUL/newline), 3-byte names over a 26-symbol shell-special alphabet and random long names are placed in $in/$out lists of an edge built directly in a State; the evaluated command is run by /bin/sh exactly as ninja does and the argv the shell produced is compared word by word. Safe names must appear verbatim. Response files: real-binary scenarios in which a longer file already sits at the rspfile path (stale, kept after a failed command, kept by -d keeprsp): the command must read exactly the evaluated content (its output is a hash of it), the file is removed after success and kept verbatim after failure; the same is monitored on the virtual disk in the nsim traces of C04/C05.', 'note': "Trusted: /bin/sh is the shell ninja spawns; argvdump. $in_newline is tested with one name (newline is the shell's command separator).", 'ref': 'DESIGN.md §5 C16'}
 
 import itertools, os, random, re, subprocess
 from concurrent.futures import ThreadPoolExecutor
